@@ -40,6 +40,15 @@ class Run:
                 return NONE
             if d == "alloc::vec::Vec":
                 return EMPTY_VEC
+            if d == "alloc::collections::btree::map::BTreeMap":
+                return ("map", ())
+            # a crate-local Default impl: interpret it
+            for imp in self.prog.impl_for("core::default::Default", lambda ty: ty["k"] == "adt" and ty["d"] == d):
+                fn = [it for it in imp["items"] if it["name"] == "default" and it.get("path") in self.prog._bodies_raw]
+                if fn and not imp["automatically_derived"]:
+                    return absint.run(self.prog.body(fn[0]["path"]), 0, {}, call=self.handler, prog=self.prog, inline=True)
+                if fn and imp["automatically_derived"]:
+                    return absint.run(self.prog.body(fn[0]["path"]), 0, {}, call=self.handler, prog=self.prog, inline=True)
             if d == "core::marker::PhantomData":
                 return ("variant", "PhantomData", [], 0, (), d)
         return None
@@ -58,6 +67,13 @@ class Run:
                 fn = [it for it in imp["items"] if it["name"] == "from"]
                 if fn and fn[0]["path"] in prog._bodies_raw:
                     return fn[0]["path"]
+            if src is None and isinstance(sr, int) and srd is None and sd is not None and sd in heads and sd.startswith("scale_info::"):
+                # non-struct source (an integer, a &str): match the source type by its printed form
+                ss = prog.ty(sr)["s"]
+                if any(prog.ty(g)["s"] == ss for g in gs):
+                    fn = [it for it in imp["items"] if it["name"] == "from"]
+                    if fn and fn[0]["path"] in prog._bodies_raw:
+                        return fn[0]["path"]
         return None
 
     def handler(self, name, args, t):
@@ -86,7 +102,13 @@ class Run:
             return None
         if last in ("into_iter", "collect", "iter", "to_vec", "clone", "to_owned", "cloned", "as_ref", "deref", "borrow") and len(args) == 1:
             return args[0]
+        if sp == "alloc::collections::btree::map::BTreeMap::new" and not args:
+            return ("map", ())
         if last in ("into", "from") and len(args) == 1 and "convert" in (t.get("trait") or ""):
+            gs_ = [g for g in (t.get("gargs") or []) if isinstance(g, int)]
+            heads_ = [prog.ty(g).get("d") for g in gs_]
+            if is_struct(args[0]) and len(args[0]) > 5 and heads_ and all(h in (args[0][5], None) for h in heads_) and args[0][5] in heads_:
+                return args[0]    # T -> T (possibly through a generic parameter that is T)
             f = self.from_impl(t, args[0])
             if f is not None:
                 cb = prog.body(f)
